@@ -13,7 +13,8 @@ Open Scope string_scope.
 Open Scope list_scope.
 
 (* one step of a traversal: its kind and source range *)
-Inductive tstep := TSRoot (r : range) | TSAttr (r : range) | TSIdxStr (r : range) | TSIdxNum (r : range) | TSIdxOther (r : range).
+Inductive tstep := TSRoot (r : range) | TSAttr (r : range) | TSIdxStr (r : range) | TSIdxNum (r : range) | TSIdxOther (r : range)
+                  | TSIdxUnknown (r : range)   (* nothing written between the brackets: the key is the parser's unknown value *).
 
 Inductive sexpr :=
 | SE (rng : range) (vt : option ty) (n : snode)
@@ -70,7 +71,7 @@ Definition step_tokens (s : tstep) : list vtoken :=
   | TSAttr r => [tok "reference-step" (shift_start r 1)]
   | TSIdxStr r => idx_token "map-key" r
   | TSIdxNum r => idx_token "number" r
-  | TSIdxOther _ => []
+  | TSIdxOther _ | TSIdxUnknown _ => []
   end.
 
 Definition lit_convertible (from to : ty) : bool :=
@@ -478,7 +479,8 @@ Definition tstep_of_sexp (x : sexp) : option tstep :=
       match range_of_sexp r with
       | Some r => if String.eqb k "root" then Some (TSRoot r) else if String.eqb k "attr" then Some (TSAttr r)
                   else if String.eqb k "idxs" then Some (TSIdxStr r) else if String.eqb k "idxn" then Some (TSIdxNum r)
-                  else if String.eqb k "idxo" then Some (TSIdxOther r) else None
+                  else if String.eqb k "idxo" then Some (TSIdxOther r)
+                  else if String.eqb k "idxu" then Some (TSIdxUnknown r) else None
       | None => None
       end
   | _ => None
